@@ -9,7 +9,8 @@ SHARDED_GEN = True
 RULE = ("cases = one instruction statement each, followed by a labelled NOP so the space the listing reserves is observable: "
         "(a) G2 ill-typed statements whose rejection the property demands (out-of-range values per operand width, <v>255, "
         "unknown/inapplicable registers, offset with auto inc/dec, [,R+], own-stack register, TFR/EXG size mismatch, modes "
-        "the datasheet does not give the mnemonic); (b) the whole C01 form stream; (c) G3 random and token-mutated operand "
+        "the datasheet does not give the mnemonic; label expressions that cannot fit an 8-bit immediate) and label expressions of known small value in "
+        "one- and two-byte fields; (b) the whole C01 form stream; (c) G3 random and token-mutated operand "
         "strings over every mnemonic (intent unknown, generic clause only). Oracle on every ACCEPTED statement: bytes taken "
         "at hook M1 decode (R1.decode_exact) as exactly one instruction of that mnemonic consuming all bytes, and byte count "
         "== next listing address - own listing address. distinct_nontrivial = distinct source statements that were accepted "
@@ -55,6 +56,10 @@ def gen_cases(tier, seed, shard, nshards):
         if n % nshards == shard:
             c = hostile.case_of(f.mn, f.canon, f.form, f.operand, f.expect, f.traits)
             c["reject_ok"] = True
+            yield c
+    for c in hostile.labelexpr_cases():
+        n += 1
+        if n % nshards == shard:
             yield c
     # G3
     per = 6000 if thorough else 90
